@@ -78,6 +78,7 @@ type Sim struct {
 	gang          map[string]*gangWatch
 	groupLeak     map[string]Res
 	mrng          *Rng
+	sideOps       []Op
 	lastMalformed malformedCase
 	lastReload    reloadResult
 }
@@ -372,6 +373,13 @@ func (s *Sim) exec(op Op) {
 			m.RejectReason = "release confirmed (" + m.RelType + ")"
 			infl.confirms[op.Key] = true
 			sh.dropObligation(op.Key)
+		} else if m != nil && m.Status != stGone {
+			// nothing to confirm (a replayed or duplicated confirmation out of context): what goes out is a release
+			m.WasBound = m.live()
+			m.ReleaseSent = true
+			m.Status = stGone
+			m.RejectReason = "released by the shim (" + op.Type + ")"
+			infl.releases[op.Key] = true
 		}
 		sh.mu.Unlock()
 		_ = s.sc.RMProxy.UpdateAllocation(&si.AllocationRequest{RmID: sh.rmID, Releases: &si.AllocationReleasesRequest{AllocationsToRelease: []*si.AllocationRelease{
@@ -551,4 +559,48 @@ func (s *Sim) deliverAllOwed() {
 			s.doStep(Op{Kind: "confirm", Key: o.Key, AppID: o.App, Type: o.Type.String()})
 		}
 	}
+}
+
+// predicateSideEffect: called from inside the shim's Predicates callback (on the scheduling goroutine, no core
+// lock held): something happens to the node under evaluation and the core processes it before the predicate
+// returns. A correct scheduler re-checks the node under its lock before it binds.
+func (s *Sim) predicateSideEffect(node, key string) {
+	s.shim.mu.Lock()
+	n := s.shim.Nodes[node]
+	if n == nil || n.Status != "accepted" {
+		s.shim.mu.Unlock()
+		return
+	}
+	free := n.Cap.Sub(s.shim.nodeForeign(node)).Sub(s.shim.nodeUsage(node))
+	var op Op
+	s.nAsk++
+	switch s.frng.Intn(2) {
+	case 0:
+		// a foreign pod takes (almost) everything that is free
+		r := Res{}
+		for t, v := range free {
+			if v > 0 {
+				r[t] = v
+			}
+		}
+		if len(r) == 0 {
+			s.shim.mu.Unlock()
+			return
+		}
+		op = Op{Kind: "ask", Asks: []AskArgs{{Key: fmt.Sprintf("foreign-se-%d", s.nAsk), Res: r, Node: node, Foreign: "default"}}, Fault: "predicate_side_effect"}
+	default:
+		// the node shrinks to what is in use
+		cap := n.Cap.Sub(free)
+		for t, v := range cap {
+			if v < 0 {
+				cap[t] = 0
+			}
+		}
+		op = Op{Kind: "node_update", Node: node, Cap: cap, Fault: "predicate_side_effect"}
+	}
+	s.shim.mu.Unlock()
+	s.faults["predicate_side_effect"]++
+	s.sideOps = append(s.sideOps, op)
+	s.exec(op)
+	s.c.settle()
 }
